@@ -805,6 +805,40 @@ def r7_not_a_time_is_rejected(repo=None):
                                                (isinstance(x, ast.Return) and pyfront.const(x.value) is True) for x in iff.body) \
                     and any(isinstance(c, ast.Call) and isinstance(c.func, ast.Attribute) and c.func.attr == "match" for c in ast.walk(f)):
                 accept.append((name, f, iff))
+    # positive evidence first: a matching method that returns the match object itself, where the object of a regex whose path was
+    # *rejected* (validity or window test false) can still be the one that is returned - the loop assigns it before the tests
+    # and nothing clears it on the rejecting side
+    for name, f in m.methods(H).items():
+        if not name.startswith("_") or name.startswith("__"):
+            continue
+        rets = [x for x in ast.walk(f) if isinstance(x, ast.Return) and isinstance(x.value, ast.Name)]
+        if not rets:
+            continue
+        g_ = m.cfg("%s.%s" % (H, name))
+        for rt in rets:
+            v = rt.value.id
+            defs = [n for n in g_.nodes if isinstance(n.ast, ast.Assign) and any(isinstance(t, ast.Name) and t.id == v for t in n.ast.targets)]
+            nonconst = [n for n in defs if isinstance(n.ast.value, ast.Call) and isinstance(n.ast.value.func, ast.Attribute) and n.ast.value.func.attr == "match"]
+            rnode = [n for n in g_.nodes if n.ast is rt]
+            if not nonconst or not rnode:
+                continue
+            for d in nonconst:
+                # tests of the matched object after the assignment, inside the loop: the side on which they fail
+                conds = [n for n in g_.nodes if n.kind == "cond" and n.ast is not None and any(isinstance(x, ast.Name) and x.id == v for x in ast.walk(n.ast))
+                         and n.id in g_.reach([d.id], avoid=[x.id for x in defs if x is not d], skip_labels=("exc",))]
+                for cn in conds:
+                    calls_valid = any(isinstance(c, ast.Call) and (pyfront.call_name(c) or "").startswith("self._") for c in ast.walk(cn.ast))
+                    if not calls_valid:
+                        continue
+                    fs = [b for b, l in g_.succ[cn.id] if l == "F"]
+                    if rnode[0].id in g_.reach(fs, avoid=[x.id for x in defs], skip_labels=("exc",)):
+                        r.violation(m.rel, "%s.%s" % (H, name), "return %s after `%s` failed" % (v, cn.label[:50]), "the method returns the match "
+                                    "object of the regex tried last even when its validity / window test rejected the path (the loop assigns "
+                                    "`%s` before the tests and the rejecting side does not clear it): with the data regex last in the list - both "
+                                    "property kinds excluded, as in every ringbuffer handler - out-of-window files and names that are not "
+                                    "dates are accepted" % v, line=rt.lineno)
+                        r.guard(1)
+                        return r
     if not accept:
         return _r7_by_outcomes(r, m)
     if len(accept) != 1:
@@ -917,7 +951,9 @@ EXPLANATION = (
     'that turns a regex match into acceptance (path condition of the accepting statement) implies a call of a validity '
     'helper whose every path (pyform) returns a false value when building the datetime from the date groups or the '
     'timedelta from the secs group raised - names that are not a date / a time are rejected as the listing skips them. '
-    "Does NOT decide that the listing's window (C14) is the same inclusive window.")
+    "Does NOT decide that the listing's window (C14) is the same inclusive window. R7 also: a matching method that "
+    'returns the match object itself is a violation when its return is reachable from the rejecting side of the validity '
+    '/ window tests without a re-definition of the returned name.')
 TECHNIQUE = (
     'Python ast; abstract execution of flag chains -> regular-language equality with the listing grammar for all flag '
     'rows; event conversion by flag states; path-by-path outcome enumeration of the window method into a propositional '
